@@ -369,6 +369,80 @@ theorem construct_over_object_faults : construct ((Buf.fresh 2).put 0 .moved) 0 
 theorem dealloc_with_object_faults : deallocOk ((Buf.fresh 1).put 0 (.live 3)) 1 = false := by
   simp [deallocOk, Buf.allRaw, Buf.fresh, Buf.put]
 
+/-! ### witnesses for the repaired defects
+
+  For every `fix:` commit of branch fix-C02 that concerns igris::vector: a history that std::vector accepts
+  (`runSpec` is defined) and the repaired code runs to the end, destructors included (`runFixed`), on which
+  the code with the ORIGINAL body of that one member function put back (`runOrig`, bodies `…Orig` in
+  Model.lean) faults in the slot model.  Kernel evaluation of the model (`decide`). -/
+
+/-- what a witness states -/
+def OrigFaults (o : Orig) (ops : List Op) : Prop :=
+  (runSpec (fun _ => []) ops).isSome = true ∧ (runFixed St.init ops).isSome = true ∧ (runOrig o St.init ops).isNone = true
+
+instance (o : Orig) (ops : List Op) : Decidable (OrigFaults o ops) := by unfold OrigFaults; infer_instance
+
+/-- 37ab9b2 (copy assignment allocated `m_size` = 0 slots and constructed `other.size()` elements behind the
+    block): `a = {4,5}; b = a;` constructs outside the allocation -/
+theorem copy_assign_orig_witness :
+    OrigFaults .copyAssign [.emplaceBack 0 (.val 4), .emplaceBack 0 (.val 5), .copyAssign 1 0] := by decide
+
+/-- db40834 (erase(first,last) destroyed the erased range, then move-assigned the tail into the destroyed
+    slots): `{1,2,3,4}.erase(begin()+1, begin()+2)` assigns to a slot that holds no object -/
+theorem erase_range_orig_witness :
+    OrigFaults .eraseRange [.listCtor 0 [1, 2, 3, 4], .erase 0 1 2] := by decide
+
+/-- 5125225 (erase(newend) only lowered m_size): `{1}.erase(begin())` then the destructor frees a block that
+    still holds a constructed element (the leak) … -/
+theorem erase_newend_orig_witness :
+    OrigFaults .eraseTo [.emplaceBack 0 (.val 1), .eraseTo 0 0] := by decide
+
+/-- … and a following push_back constructs over the object that was never destroyed -/
+theorem erase_newend_orig_witness_push :
+    OrigFaults .eraseTo [.reserve 0 2, .emplaceBack 0 (.val 1), .eraseTo 0 0, .emplaceBack 0 (.val 2)] := by decide
+
+/-- ebcd133 (push_back took the reference, replaced the buffer, then copy-constructed from the reference):
+    `v.reserve(1); v.push_back(3); v.push_back(v[0]);` reads the freed block -/
+theorem push_back_alias_orig_witness :
+    OrigFaults .pushBack [.reserve 0 1, .emplaceBack 0 (.val 3), .emplaceBack 0 (.own 0)] := by decide
+
+/-- f1b29cb (insert: move_backward assigned into the unconstructed slot at the old end): `{7}.insert(begin(), 8)` -/
+theorem insert_orig_witness :
+    OrigFaults .insert [.reserve 0 2, .emplaceBack 0 (.val 7), .emplace 0 0 (.val 8)] := by decide
+
+/-- f1b29cb, insert at end(): `*first = value` on the unconstructed slot — `v.insert(v.begin(), 7)` on an empty vector -/
+theorem insert_end_orig_witness : OrigFaults .insert [.emplace 0 0 (.val 7)] := by decide
+
+/-- f1b29cb (emplace: the same move_backward, then placement-new over the moved-from object):
+    `{4}.emplace(begin(), 7)` -/
+theorem emplace_orig_witness :
+    OrigFaults .emplace [.reserve 0 2, .emplaceBack 0 (.val 4), .emplace 0 0 (.val 7)] := by decide
+
+/-- a60ae02 (insert(pos, first, last): move_backward and std::copy assigned into the unconstructed slots
+    behind the old end): `{1}.insert(begin(), a, a + 2)` with room for three -/
+theorem insert_range_orig_witness :
+    OrigFaults .insertRange [.reserve 0 4, .emplaceBack 0 (.val 1), .insertRange 0 0 (.ext [7, 8])] := by decide
+
+/-- a60ae02, a foreign range after a reallocation was re-based on the new buffer (read of unrelated memory) -/
+theorem insert_range_realloc_orig_witness :
+    OrigFaults .insertRange [.reserve 0 1, .insertRange 0 0 (.ext [7, 8, 9, 6])] := by decide
+
+/-- 7c36ffc (const at() asserted before the range test): `{1}.at(1)` aborts where std::vector throws -/
+theorem const_at_orig_witness : OrigFaults .constAt [.listCtor 0 [1], .at 0 1, .at 0 0] := by decide
+
+/-- the original bodies are not faults by construction: each runs the paths that were right (erase of a
+    tail range, copy assignment from an empty vector, truncation to the current size, push_back of a value,
+    emplace at end(), an empty range insert, at() inside the range); the original insert(pos, value)
+    alone has no such path — it assigned to an unconstructed slot on every call -/
+example :
+    (runOrig .eraseRange St.init [.listCtor 0 [1, 2, 3], .erase 0 1 3]).isSome = true ∧
+    (runOrig .copyAssign St.init [.emplaceBack 1 (.val 4), .copyAssign 1 0]).isSome = true ∧
+    (runOrig .eraseTo St.init [.emplaceBack 0 (.val 1), .eraseTo 0 1]).isSome = true ∧
+    (runOrig .pushBack St.init [.emplaceBack 0 (.val 3), .emplaceBack 0 (.val 4)]).isSome = true ∧
+    (runOrig .emplace St.init [.emplace 0 0 (.val 7), .emplace 0 1 (.val 8)]).isSome = true ∧
+    (runOrig .insertRange St.init [.emplaceBack 0 (.val 1), .insertRange 0 0 (.ext [])]).isSome = true ∧
+    (runOrig .constAt St.init [.listCtor 0 [1], .at 0 0]).isSome = true := by decide
+
 /-! ### the bisection routines (std::upper_bound / std::lower_bound as written in libstdc++) -/
 
 /-- vector::insert_sorted: over the block of a vector holding the sorted sequence `xs`, the modelled
